@@ -299,6 +299,10 @@ def actsOnlyBlk (p : Prog) : Nat → Nat → Bool
 
 /-- After end-of-input has been consumed by an `end` pattern: run what needs no input (actions; an
     `if` that guards matches is not an action and fails). -/
+def finFail (c : Ctx) : STree :=
+  -- (relaxed reading: what the same step performed before the input turned out to be missing was pending)
+  if c.lp then .emit .raised (retHaltS "FAIL") else retHaltS "FAIL"
+
 def fin (c : Ctx) : Nat → Kont → STree
   | 0, _ => retHaltS "FAIL"
   | _ + 1, [] => retHaltS "DONE"
@@ -308,7 +312,7 @@ def fin (c : Ctx) : Nat → Kont → STree
     | some s =>
       let K' := Frame.run blk (pos + 1) :: rest
       match s with
-      | .mtch r _ => if r.nullable then fin c fuel K' else retHaltS "FAIL"
+      | .mtch r _ => if r.nullable then fin c fuel K' else finFail c
       | .act a =>
         match a with
         | .finish none => retHaltS "DONE"
@@ -331,11 +335,11 @@ def fin (c : Ctx) : Nat → Kont → STree
           | (.const true, b) :: _ => fin c fuel (.run b 0 :: K')
           | (.const false, _) :: more => chain more
           | (.expr e, b) :: more => .ask (.cond (subst c.o c.x e)) (fin c fuel (.run b 0 :: K')) (chain more)
-        if bs.all (fun cb => actsOnlyBlk c.p 8 cb.2) then chain bs else retHaltS "FAIL"
-      | _ => retHaltS "FAIL"
-  | fuel + 1, .m r _ :: rest => if r.nullable then fin c fuel rest else retHaltS "FAIL"
+        if bs.all (fun cb => actsOnlyBlk c.p 8 cb.2) then chain bs else finFail c
+      | _ => finFail c
+  | fuel + 1, .m r _ :: rest => if r.nullable then fin c fuel rest else finFail c
   | fuel + 1, .tryMark _ _ _ :: rest => fin c fuel rest
-  | _ + 1, _ => retHaltS "FAIL"
+  | _ + 1, _ => finFail c
 
 def stepFuel (p : Prog) : Nat := 4 * (p.blocks.foldl (fun n b => n + b.length + 1) 0) + 16
 
